@@ -43,7 +43,7 @@ SVC = {"s1": "svc-secret-1", "s2": "svc-secret-2"}
 ADDR = {"l": "127.0.0.1", "a1": "203.0.113.1", "a2": "203.0.113.2"}
 ORIGIN = {"g1": "https://web1.example", "g2": "https://web2.example", "gx": "https://evil.example"}
 BRIDGE = {"b1": "bridge-secret-1", "bx": "bridge-secret-x"}
-CAPURL = {"u1": "https://captcha.example/"}
+CAPURL = {"u1": "https://captcha.example/", "u2": "https://captcha.example.net:44e3/"}   # u2: valid TOML, rejected by net/url
 CAPKEY = {"k1": "00112233445566778899aabbccddeeff00112233445566778899aabbccddeeff"}
 EXP = {30: "30m0s", 45: "45m0s", 60: "1h0m0s"}
 
@@ -92,6 +92,15 @@ TOML.update({
     "Cn": TOML["C"].replace(_tbl("Banned", [(ADDR["a1"], '"listed"')]), ""),
     "Ce": TOML["C"].replace(_tbl("Banned", [(ADDR["a1"], '"listed"')]), "[Banned]\n"),
 })
+# a document larger than 1 MiB whose tables come LAST (a reader that stops early loses them), a value that
+# only a stricter validator than the TOML decoder would refuse, and a syntax error behind 1 MiB of valid text
+_PAD = "".join("# padding line %06d ......................................................................\n" % i for i in range(13000))
+_a_head, _a_tail = TOML["A"].split("[IRC]\n", 1)
+TOML["Ah"] = _a_head + _PAD + "[IRC]\n" + _a_tail
+TOML["Bu"] = TOML["B"].replace(CAPURL["u1"], CAPURL["u2"])
+TOML.update({
+    "Xbig": HEAD + 'SessionExpiration = "5m0s"\nMaxChannels = 7\n' + _PAD + "MaxSessions = = 3\n",
+})
 TOML.update({
     # invalid: the valid-looking lines before the error make a half-parsed install visible
     "Xsyn": HEAD + 'SessionExpiration = "5m0s"\nMaxChannels = 7\nMaxSessions = = 3\n',
@@ -99,7 +108,7 @@ TOML.update({
     "Xdur": HEAD + 'MaxChannels = 7\nSessionExpiration = "soon"\n',
     "Xhex": HEAD + 'SessionExpiration = "5m0s"\nMaxChannels = 7\nCaptchaHMACSecret = "zz"\n',
 })
-VALID = ("P", "A", "Ae", "Ab", "B", "C", "Cn", "Ce", "D", "E", "Z", "R")
+VALID = ("P", "A", "Ae", "Ab", "Ah", "B", "Bu", "C", "Cn", "Ce", "D", "E", "Z", "R")
 BANNED_KIND = {}
 
 
